@@ -83,7 +83,7 @@ func genEnv(r *core.Rand) OpEnv {
 	env.Valuer = v
 	env.IntDiv = r.Chance(1, 2)
 	env.ValuerKind = r.Weighted([]int{5, 2, 1, 1, 1})
-	env.MapperKind = r.Weighted([]int{4, 1})
+	env.MapperKind = r.Weighted([]int{6, 2, 1})
 	return env
 }
 
@@ -211,6 +211,9 @@ func sortedVarNames(m map[string]simschema.VarVal) []string {
 // typeMapper is the TypeMapper handed to type evaluation (the stub, or the package's own
 // MultiTypeMapper around it).
 func (c *opCtx) typeMapper() influxql.TypeMapper {
+	if c.env.MapperKind == 2 {
+		return nil // EvalType documents a nil mapper as "no type information"
+	}
 	if c.env.MapperKind == 1 {
 		return influxql.MultiTypeMapper(c.fm, c.fm)
 	}
@@ -353,7 +356,10 @@ func (c *opCtx) applySelectOp(s *influxql.SelectStatement, op Op) (result string
 	case "EvalType":
 		return influxql.EvalType(pickExpr(s, op.Arg), s.Sources, c.typeMapper()).String(), nil
 	case "TypeValuerEval":
-		tv := influxql.TypeValuerEval{TypeMapper: c.typeMapper(), Sources: s.Sources}
+		tv := influxql.TypeValuerEval{TypeMapper: c.fm, Sources: s.Sources}
+		if c.env.MapperKind == 1 {
+			tv.TypeMapper = c.typeMapper()
+		}
 		if op.Arg%5 == 0 {
 			tv.TypeMapper = nil
 		}
@@ -555,9 +561,11 @@ func (C13) Exec(pi interface{}) *core.RunResult {
 		var repl *influxql.SelectStatement
 		verifhook.BeginOp(opBudget)
 		pan := core.Guard(func() {
-			if isSel {
+			_, isExplain := st.(*influxql.ExplainStatement)
+			if isSel && !(isExplain && op.Arg%4 == 0) {
 				result, repl = ctx.applySelectOp(sel, op)
 			} else {
+				// statement-level operations (also on the EXPLAIN wrapper itself)
 				result = applyStatementOp(st, op)
 			}
 		})
